@@ -358,6 +358,14 @@ func realTrace(args []string) int {
 			cx, cy = minX+span-radius*(1.2+rng.Float64()), minY+span-radius*(1.2+rng.Float64())
 		case "farband": // one vertex inside the extent but within the reported deviation of the right/top border (finding F10)
 			cx, cy = minX+span-radius*1.05, minY+span*(0.2+0.6*rng.Float64())
+		case "centre": // on the centre lines of the extent (x = 0 / y = 0 of the Mercator sets): where the four root quadrants meet
+			cx, cy = minX+span/2, minY+span/2
+			switch rng.Intn(3) {
+			case 0:
+				cy = minY + span*(0.1+0.8*rng.Float64())
+			case 1:
+				cx = minX + span*(0.1+0.8*rng.Float64())
+			}
 		case "nl":
 			if g.name == "NetherlandsRDNewQuad" {
 				cx, cy = 20000+rng.Float64()*250000, 310000+rng.Float64()*300000
@@ -402,6 +410,17 @@ func realTrace(args []string) int {
 			lp = lpoly{dedupConsecutive(r)}
 		default:
 			lp = genArbitrary(rng, kmax/2+1, 12)
+		}
+		if wh == "centre" && len(lp) > 0 && len(lp[0]) >= 2 {
+			// an edge (two consecutive vertices) exactly on a centre line of the extent
+			j := rng.Intn(len(lp[0]))
+			if rng.Intn(2) == 0 {
+				c := int(math.Round((minX+span/2)/step)-ax) + kmax
+				lp[0][j][0], lp[0][(j+1)%len(lp[0])][0] = c, c
+			} else {
+				c := int(math.Round((minY+span/2)/step)-ay) + kmax
+				lp[0][j][1], lp[0][(j+1)%len(lp[0])][1] = c, c
+			}
 		}
 		if wh == "farband" {
 			// put the right-most vertex at half the reported deviation from the right border (if that is representable on the step grid)
